@@ -33,6 +33,7 @@ import (
 	"github.com/libp2p/go-libp2p/core/sec"
 	"github.com/libp2p/go-libp2p/internal/vfh"
 	tptu "github.com/libp2p/go-libp2p/p2p/net/upgrader"
+	"github.com/libp2p/go-libp2p/p2p/security/noise/pb"
 )
 
 // ---------------------------------------------------------------------------------------------
@@ -152,12 +153,23 @@ func vfC01Secure(k vfC01Key, setting string, prologue []byte, counterpart, attac
 	if prologue != nil {
 		opts = append(opts, Prologue(prologue))
 	}
+	if session {
+		// the way WebTransport uses the session transport: early data in both directions
+		opts = append(opts, EarlyData(vfC01EDH{}, vfC01EDH{}))
+	}
 	if setting == "off" {
 		opts = append(opts, DisablePeerIDCheck())
 	}
 	st, err := tpt.WithSessionOptions(opts...)
 	return st, p, err
 }
+
+type vfC01EDH struct{}
+
+func (vfC01EDH) Send(context.Context, net.Conn, peer.ID) *pb.NoiseExtensions {
+	return &pb.NoiseExtensions{WebtransportCerthashes: [][]byte{[]byte("vfC01-certhash-1"), []byte("vfC01-certhash-2")}}
+}
+func (vfC01EDH) Received(context.Context, net.Conn, *pb.NoiseExtensions) error { return nil }
 
 // ---------------------------------------------------------------------------------------------
 // endpoints, pipes, taps
